@@ -215,7 +215,7 @@ func kfArraySlice(args []KeyBuilderStage) (KeyBuilderStage, error) {
 		for i := 0; (sliceLen < 0 || i < realStart+sliceLen) && !splitter.Done(); i++ {
 			val := splitter.Next()
 			if i >= realStart {
-				if i > realStart {
+				if i > realStart && i > 0 {
 					ret.WriteString(ArraySeparatorString)
 				}
 				ret.WriteString(val)
